@@ -326,3 +326,33 @@ Definition nauty_orbits (g : graph) : list (list N) := orbit_classes (nauty_perm
 Definition run_case6 (items : list (graph * list (N * Z) * list (N * Z))) (others rule_hs : list graph) : tok :=
   L [run_case5 items others rule_hs;
      tlist (fun it : graph * list (N * Z) * list (N * Z) => tset (tset tN) (nauty_orbits (fst (fst it)))) items].
+
+(* ------------------------------------------------------------------ max_depth (round 5; additions only) *)
+(* _search(..., depth, max_depth): "if max_depth is not None and depth > max_depth: return True" on entry (depth = length of the
+   prefix), and "if self._search(...): return True" in the loop over the children - the first node deeper than max_depth
+   abandons the WHOLE search; canonical_form then uses the best leaf found so far (RuntimeError when there is none) and
+   reports early_stop = True.  The accumulator is paired with the early-stop flag. *)
+Fixpoint nsearch_md (md : nat) (g : graph) (fuel : nat) (P : partition) (pre : list N) (a : nacc) : nacc * bool :=
+  match fuel with
+  | 0 => (a, false)
+  | S f =>
+      if Nat.ltb md (length pre) then (a, true) else
+      let P' := nrefine g P in
+      match first_big P' with
+      | None => (nvisit g a (mkleaf pre (concat P')), false)
+      | Some i => fold_left (fun (s : nacc * bool) v => if snd s then s
+                                        else if npruned g (fst s) (pre ++ [v]) then s
+                                        else nsearch_md md g f (individualise P' i v) (pre ++ [v]) (fst s))
+                            (children g (nth i P' [])) (a, false)
+      end
+  end.
+Definition nauty_md (md : nat) (g : graph) : nacc * bool := nsearch_md md g (sfuel g) (init_partition g) [] (None, []).
+(* canonical_form(G, return_perm=True, max_depth=md): None = RuntimeError, else (perm, early_stop) *)
+Definition canon_md (md : nat) (g : graph) : option (list N * bool) :=
+  match fst (fst (nauty_md md g)) with Some (_, p) => Some (p, snd (nauty_md md g)) | None => None end.
+Definition run_md (g : graph) (mds : list nat) : tok :=
+  tlist (fun md => topt (fun pb : list N * bool => L [tlist tN (fst pb); tbool (snd pb)]) (canon_md md g)) mds.
+(* the base presentation under max_depth = each of [mds] (the harness sends 0, 1, 2 and the number of nodes) *)
+Definition run_case7 (items : list (graph * list (N * Z) * list (N * Z))) (others rule_hs : list graph) (mds : list nat) : tok :=
+  L [run_case6 items others rule_hs;
+     match items with [] => L [] | it :: _ => run_md (fst (fst it)) mds end].
